@@ -1,5 +1,5 @@
 (* Property C09 - axes follow first appearance of population labels; only listed samples count. *)
-From Sfs Require Import Index ArrayM Scalar Spectrum Project Create IndexP ArrayP BinomP ProjectP CreateP CreateSpecP.
+From Sfs Require Import Index ArrayM Scalar Spectrum Project Create SampleParse IndexP ArrayP BinomP ProjectP CreateP CreateSpecP SampleParseP.
 From Coq Require Import Permutation.
 
 Close Scope Qc_scope. Close Scope Q_scope. Open Scope nat_scope.
@@ -76,6 +76,33 @@ Theorem C09_column_order_free : forall m cols cols' pto st gs gs',
   snd (read_site m cols pto st gs) = snd (read_site m cols' pto st gs').
 Proof. exact (@read_site_column_perm). Qed.
 Print Assumptions C09_column_order_free.
+
+(* --samples-file and --samples with the same content build the same sample map (names and labels free of the separators) *)
+Theorem C09_samples_file_equals_inline : forall l,
+  l <> [] -> Forall entry_plain l ->
+  build_map (parse_samples_file (render_file l)) = build_map (parse_samples_inline (render_inline l)) /\
+  parse_samples_file (render_file l) = l.
+Proof. exact (@file_equiv_inline). Qed.
+Print Assumptions C09_samples_file_equals_inline.
+
+(* the inline syntax name=label,... denotes the list *)
+Theorem C09_inline_list_roundtrip : forall l,
+  l <> [] -> Forall entry_plain l -> parse_samples_inline (render_inline l) = l.
+Proof. exact (@parse_render_inline). Qed.
+Print Assumptions C09_inline_list_roundtrip.
+
+(* the file syntax name<TAB>label per line denotes the list *)
+Theorem C09_samples_file_roundtrip : forall l,
+  Forall entry_plain l -> parse_samples_file (render_file l) = l.
+Proof. exact (@parse_render_file). Qed.
+Print Assumptions C09_samples_file_roundtrip.
+
+(* Windows line ends are tolerated *)
+Theorem C09_samples_file_crlf : forall l,
+  Forall entry_plain l ->
+  parse_samples_file (flat_map (fun e => render_entry 9 e ++ [13; 10]) l) = l.
+Proof. exact (@parse_file_crlf). Qed.
+Print Assumptions C09_samples_file_crlf.
 
 (* an empty list is an error *)
 Theorem C09_empty_list_is_error : forall cols p,
